@@ -218,6 +218,10 @@ def instances():
     return out
 
 
+def adapts():
+    return [["DAdapt", 100, mode, an, ["PNone"]] for mode in (1, 2) for an in (True, False)]
+
+
 def types_():
     return [["DType", c, an] for c in (100, 101, 0) for an in (True, False)]
 
@@ -241,7 +245,7 @@ PREFIX_VALUES = [S(t) for t in ("yes", "y", "ye", "yest", "n", "no", "nop", "nop
 def fast_leaves(layer2=True):
     out = SIMPLE_FAST + float_ranges()[:8] + ENUMS[:3] + instances()
     if layer2:
-        out = out + CASTS + MAPS + ENUMS[3:] + float_ranges()[8:]
+        out = out + CASTS + MAPS + ENUMS[3:] + float_ranges()[8:] + adapts()
     return out
 
 
